@@ -168,7 +168,13 @@ func everyPersistedGroupLoaded(c *eng.Ctx) {
 		c.Check(len(reg) == 1, "registers-the-group", nil, f, "a loaded group is registered in the group map", fmt.Sprintf("%d map updates", len(reg)))
 		if len(reg) == 1 {
 			nilE, _ := eng.ErrCheckEdges(f, ld.Instr.(ssa.Value))
-			hdr := innermostLoop(f, ld.Instr.Block())
+			at := ld.Instr
+			if at.Parent() != f { // the load sits in a helper (construct + register): judged at the helper's call in the loop
+				if t := eng.TopOf(f, ld); t != nil {
+					at = t
+				}
+			}
+			hdr := innermostLoop(f, at.Block())
 			if hdr == nil {
 				c.Undecided("unrecognised shape: groups are not loaded in a loop")
 			}
@@ -845,13 +851,19 @@ func rollupSlotBaseIsTheFamilyStart(c *eng.Ctx) {
 		}
 		for _, b := range blocks {
 			for _, in := range b.Instrs {
-				cl, ok := in.(*ssa.Call)
-				if !ok || cl.Common().StaticCallee() == nil || cl.Common().StaticCallee().Name() != "newRollup" {
+				// the rollup context is made by newRollup(…, targetBase), or written in place as &rollup{…, targetFTime: targetBase}
+				var base ssa.Value
+				var cl ssa.Instruction
+				if call, ok := in.(*ssa.Call); ok && call.Common().StaticCallee() != nil && call.Common().StaticCallee().Name() == "newRollup" {
+					a := call.Common().Args
+					base, cl = a[len(a)-1], call
+				} else if st, ok := in.(*ssa.Store); ok && eng.StoreField("kv.rollup.targetFTime")(p, in) && in.Parent().Name() != "newRollup" {
+					base, cl = st.Val, st
+				}
+				if base == nil {
 					continue
 				}
 				n++
-				a := cl.Common().Args
-				base := a[len(a)-1]
 				okB := true
 				var desc []string
 				for _, src := range leafSources(base) {
@@ -898,9 +910,12 @@ func rollupSlotBaseIsTheFamilyStart(c *eng.Ctx) {
 func lookupMissIsFinalOnlyOnCurrentSnapshot(c *eng.Ctx) {
 	c.Rule("GUARD", kvsT+".getOrCreateValue{a pure look-up reports 'absent' only against the current snapshot}", func() {
 		f := c.Fn(kvsT + ".getOrCreateValue")
-		snap := c.One(f, eng.CallTo(kvsT+".getSnapshot"), "s.getSnapshot()")
+		snapV, snapAt := lookupSnapshotOf(c)
+		if snapAt == nil {
+			c.Undecided("unrecognised shape: the snapshot handed to createValue is neither s.getSnapshot() nor a read of s.snapshot")
+		}
 		mem := c.One(f, eng.AnyCallTo(kvsT+".GetValueFromMem"), "s.GetValueFromMem(bucket, key)")
-		if !eng.DominatedBy(f, mem.Instr, []eng.Site{snap}, nil) {
+		if !eng.DominatedBy(f, mem.Instr, []eng.Site{{Fn: f, Instr: snapAt}}, nil) {
 			// memory first, snapshot afterwards: a key that left memory is in the snapshot taken later - nothing to re-check
 			c.Check(true, "memory-read-before-the-snapshot", mem.Instr, f, "the memory stores are read before the snapshot is taken", "")
 			return
@@ -929,29 +944,7 @@ func lookupMissIsFinalOnlyOnCurrentSnapshot(c *eng.Ctx) {
 			c.Undecided("unrecognised shape: no test of createFn against nil in getOrCreateValue")
 		}
 		// equal-edges of a comparison of the store's current snapshot with the one the look-up used
-		var same []eng.Edge
-		for _, b := range f.Blocks {
-			ifi, ok := b.Instrs[len(b.Instrs)-1].(*ssa.If)
-			if !ok {
-				continue
-			}
-			bo, ok := eng.Unwrap(ifi.Cond).(*ssa.BinOp)
-			if !ok || bo.Op != token.EQL && bo.Op != token.NEQ {
-				continue
-			}
-			x, y := bo.X, bo.Y
-			if !eng.DependsOnField(x, kvsT+".snapshot") {
-				x, y = y, x
-			}
-			if !eng.DependsOnField(x, kvsT+".snapshot") || !eng.SameValue(y, snap.Instr.(ssa.Value)) {
-				continue
-			}
-			if bo.Op == token.EQL {
-				same = append(same, eng.Edge{B: b, Succ: 0})
-			} else {
-				same = append(same, eng.Edge{B: b, Succ: 1})
-			}
-		}
+		same := snapshotSameEdges(c.P, f, func(v ssa.Value) bool { return eng.SameValue(v, snapV) })
 		n := 0
 		for _, e := range nilEdges {
 			first := e.B.Succs[e.Succ].Instrs[0]
@@ -1263,7 +1256,7 @@ func compactionStreamFollowsTheOutputFile(c *eng.Ctx) {
 		// the stream writer of that builder
 		fin := c.Fn(cjT + ".finishCompactionOutputFile")
 		nClr := 0
-		for _, g := range closuresT(fin) {
+		for _, g := range append(closuresT(fin), localFuncs(fin)...) {
 			nClr += len(p.SitesDirect(g, eng.StoreField("kv.compactionState.builder")))
 		}
 		c.Check(nClr > 0, "rollover-closes-the-builder", nil, fin, "finishing an output file clears state.builder", "")
@@ -1523,4 +1516,117 @@ func watchResyncReachesTheListeners(c *eng.Ctx) {
 				"the re-sync case announces both what exists (OnCreate) and what the listeners know but is gone (OnDelete)", fmt.Sprintf("OnDelete reachable: %v, OnCreate reachable: %v", reach("OnDelete"), reach("OnCreate")))
 		}
 	})
+}
+
+// snapshotSameEdges: the CFG edges (in fn and the helpers it enters) on which "the store's current snapshot == other" is established:
+// the equal-edge of a comparison of a load of indexKVStore.snapshot with a value accepted by isOther, written in place or inside a
+// small predicate helper (isCurrentSnapshot(x) = s.snapshot == x) whose argument is accepted by isOther.
+func snapshotSameEdges(p *eng.Prog, fn *ssa.Function, isOther func(ssa.Value) bool) []eng.Edge {
+	isSnapLoad := func(v ssa.Value) bool {
+		in, ok := eng.Unwrap(v).(ssa.Instruction)
+		return ok && eng.LoadField(kvsT+".snapshot")(p, in)
+	}
+	var out []eng.Edge
+	for _, b := range eng.BlocksT(fn) {
+		if len(b.Instrs) == 0 {
+			continue
+		}
+		ifi, ok := b.Instrs[len(b.Instrs)-1].(*ssa.If)
+		if !ok {
+			continue
+		}
+		cond := ifi.Cond
+		neg := false
+		for {
+			u, isU := cond.(*ssa.UnOp)
+			if !isU || u.Op != token.NOT {
+				break
+			}
+			neg, cond = !neg, u.X
+		}
+		eqEdge := -1
+		switch x := cond.(type) {
+		case *ssa.BinOp:
+			if x.Op != token.EQL && x.Op != token.NEQ {
+				break
+			}
+			a, o := x.X, x.Y
+			if !isSnapLoad(a) {
+				a, o = o, a
+			}
+			if isSnapLoad(a) && isOther(o) {
+				eqEdge = 0
+				if x.Op == token.NEQ {
+					eqEdge = 1
+				}
+			}
+		case *ssa.Call:
+			h := eng.TransparentCallee(x)
+			if h == nil || h.Signature.Results().Len() != 1 {
+				break
+			}
+			// the helper returns exactly "s.snapshot == param" (or !=)
+			var cmp *ssa.BinOp
+			n := 0
+			for _, hb := range h.Blocks {
+				for _, hin := range hb.Instrs {
+					if r, isR := hin.(*ssa.Return); isR {
+						n++
+						cmp, _ = eng.Unwrap(r.Results[0]).(*ssa.BinOp)
+					}
+				}
+			}
+			if n != 1 || cmp == nil || cmp.Op != token.EQL && cmp.Op != token.NEQ {
+				break
+			}
+			a, o := cmp.X, cmp.Y
+			if !isSnapLoad(a) {
+				a, o = o, a
+			}
+			pr, isP := eng.Unwrap(o).(*ssa.Parameter)
+			if !isSnapLoad(a) || !isP {
+				break
+			}
+			args := eng.CallArgs(x)
+			for i, hp := range h.Params {
+				j := i
+				if h.Signature.Recv() != nil {
+					j = i - 1
+				}
+				if hp == pr && j >= 0 && j < len(args) && isOther(args[j]) {
+					eqEdge = 0
+					if cmp.Op == token.NEQ {
+						eqEdge = 1
+					}
+				}
+			}
+		}
+		if eqEdge < 0 {
+			continue
+		}
+		if neg {
+			eqEdge = 1 - eqEdge
+		}
+		out = append(out, eng.Edge{B: b, Succ: eqEdge})
+	}
+	return out
+}
+
+// lookupSnapshotOf: the snapshot a look-up of getOrCreateValue works with - the value it hands to createValue - and the instruction
+// that produced it (s.getSnapshot(), or the field read when that accessor is written in place).
+func lookupSnapshotOf(c *eng.Ctx) (ssa.Value, ssa.Instruction) {
+	g := c.Fn(kvsT + ".getOrCreateValue")
+	call := c.One(g, eng.CallTo(kvsT+".createValue"), "createValue call")
+	v := eng.CallArgs(call.Instr.(*ssa.Call))[2]
+	for _, src := range leafSources(v) {
+		if in, ok := src.(ssa.Instruction); ok {
+			if cl, isC := src.(*ssa.Call); isC && calleeName(cl) == "getSnapshot" {
+				return v, in
+			}
+			if eng.LoadField(kvsT+".snapshot")(c.P, in) {
+				return v, in
+			}
+		}
+	}
+	return v, nil
 }
